@@ -60,8 +60,8 @@ REQUIRED_PROBES = {
             "c04_executor_lambda_checks"],
 }
 LAT = [0.0, 0.001, 1.0, 60.0, 3600.0]
-KEYS = ["k0", "k1", "k2", "never"]
-QVALS = [1, 2, 3, "x", [1, 2], "1", 1.0]
+KEYS = ["k0", "k1", "k2", "K0", "never"]
+QVALS = [1, 2, 3, "x", [1, 2], "1", 1.0, 0, "", False, []]
 
 # ---------------------------------------------------------------------------------------------
 # lambda catalog (opaque specs: never evaluated; chosen to walk every in-place-editing path)
@@ -256,7 +256,7 @@ def _gen_plan(rng, faults, sync):
     if kind == "ok":
         return ["ok", lat, rng.choice(["token", "token", "none", "zero", "emptylist"])]
     if kind == "error":
-        return ["error", lat, rng.choice(["KeyError", "ValueError", "RuntimeError", "Custom"])]
+        return ["error", lat, rng.choice(ERR_NAMES)]
     return ["stall", rng.choice([0.5, 30.0, 4000.0]), None]
 
 
@@ -322,7 +322,7 @@ def generate(prop: str, seed: int, tier: str = "quick", fault_free: bool = False
         elif k == "qmd":
             md = {}
             for _ in range(w.randint(1, 2)):
-                k = w.choice(KEYS[:3])
+                k = w.choice(KEYS[:4])
                 # repeated keys with equal and different values: often re-use a value that the
                 # run already gave this key (set back to an earlier value, set again to the same)
                 if qhist.get(k) and w.random() < 0.4:
@@ -334,7 +334,7 @@ def generate(prop: str, seed: int, tier: str = "quick", fault_free: bool = False
                 md = {}
             ops.append({"op": "qmd", "parent": w.randrange(64), "md": md})
             if w.random() < 0.35:  # consecutive calls on the stream just made
-                md2 = {w.choice(KEYS[:3]): w.choice(QVALS)}
+                md2 = {w.choice(KEYS[:4]): w.choice(QVALS)}
                 ops.append({"op": "qmd", "parent": -1, "md": md2})
         elif k == "term":
             ops.append({"op": "term", "parent": w.randrange(64), "kind": w.choice(TERMS),
@@ -459,8 +459,26 @@ class CustomError(Exception):
     pass
 
 
-ERRS = {"KeyError": KeyError, "ValueError": ValueError, "RuntimeError": RuntimeError,
-        "Custom": CustomError}
+def _error_types():
+    "Every builtin Exception subclass that can be built from one string (plus a custom one)."
+    import builtins
+
+    out = {"Custom": CustomError}
+    for name in sorted(dir(builtins)):
+        t = getattr(builtins, name)
+        if isinstance(t, type) and issubclass(t, Exception) and not issubclass(t, Warning):
+            if t in (StopIteration, StopAsyncIteration) or issubclass(t, (SystemError,)):
+                continue
+            try:
+                t("x")
+            except Exception:
+                continue
+            out[name] = t
+    return out
+
+
+ERRS = _error_types()
+ERR_NAMES = sorted(ERRS)
 
 
 class Violation(Exception):
@@ -1079,6 +1097,13 @@ class Forest:
             kw["title"] = call["title"]
         return kw
 
+    def invoke(self, call, fn):
+        "Call value / value_async with keyword or (every third call) positional arguments."
+        kw = self.kwargs_for(call)
+        if call["no"] % 3 == 2:
+            return fn(kw.get("executor"), kw.get("title"))
+        return fn(**kw)
+
     def run_sync(self, call, mt=False):
         "stream.value(...) on the current thread (blocks the outer loop, as in production)."
         self.expectations(call)
@@ -1088,12 +1113,10 @@ class Forest:
         if not mt:
             self.sync_call = call
         try:
-            r = call["m"].stream.value(**self.kwargs_for(call))
+            r = self.invoke(call, call["m"].stream.value)
             call["res"] = ("ret", r)
-        except asyncio.CancelledError:
-            call["res"] = ("cancelled",)
         except BaseException as e:
-            call["res"] = ("exc", e)
+            call["res"] = self.classify_exc(call, e)
         finally:
             CURRENT_CALL.reset(tok)
             if not mt:
@@ -1109,20 +1132,27 @@ class Forest:
                 return
             self.expectations(call)
             CURRENT_CALL.set(call)  # this task's own context
-            coro = call["m"].stream.value_async(**self.kwargs_for(call))
+            coro = self.invoke(call, call["m"].stream.value_async)
             if call["timeout"] is not None:
                 r = await asyncio.wait_for(coro, call["timeout"])
             else:
                 r = await coro
             call["res"] = ("ret", r)
-        except asyncio.CancelledError:
-            call["res"] = ("cancelled",)
-        except asyncio.TimeoutError as e:
-            call["res"] = ("timeout", e)
         except BaseException as e:
-            call["res"] = ("exc", e)
+            call["res"] = self.classify_exc(call, e)
         call["done_t"] = self.world.now
         self.ev("call_done", call["no"], call["res"][0])
+
+    @staticmethod
+    def classify_exc(call, e):
+        "What the caller saw.  The executor's own planned exception wins by identity."
+        if e is call["err"]:
+            return ("exc", e)
+        if isinstance(e, asyncio.CancelledError):
+            return ("cancelled",)
+        if isinstance(e, asyncio.TimeoutError):
+            return ("timeout", e)
+        return ("exc", e)
 
     def op_exec_sync(self, op):
         m = self.ref(op, "stream")
